@@ -361,6 +361,14 @@ class Interp:
 
     def e_BoolOp(self, node: ast.BoolOp, env: Env):
         is_and = isinstance(node.op, ast.And)
+        if self.st.no_fork:
+            # inside a summarised (side-effect free) expression: the value as a conditional term
+            vals = [self.eval(sub, env) for sub in node.values]
+            out = vals[-1]
+            for v in reversed(vals[:-1]):
+                t = self.truthy(v)
+                out = z3.If(t, out, v) if is_and else z3.If(t, v, out)
+            return out
         v = None
         for i, sub in enumerate(node.values):
             v = self.eval(sub, env)
@@ -562,8 +570,10 @@ class Interp:
                 and isinstance(node.func, ast.Name)
                 and node.func.id in ("any", "all", "tuple", "list", "frozenset", "set")):
             fv = self.lookup(node.func.id, env)
-            lv = self.st.fun_of(fv)
-            if isinstance(lv, LibV) and lv.name == f"builtins.{node.func.id}":
+            lv = self.st.fun_of(fv) if self.kind(fv) == "function" else None
+            is_builtin_cls = self.kind(fv) == "type" and z3.is_int_value(self.st.simp(V.cid(fv))) and \
+                self.ct.name(self.st.simp(V.cid(fv)).as_long()) == node.func.id
+            if (isinstance(lv, LibV) and lv.name == f"builtins.{node.func.id}") or is_builtin_cls:
                 return self.lib.comprehension(self, node.func.id, node.args[0], env)
         f = self.eval(node.func, env)
         fobj = self.st.fun_of(f) if self.kind(f) == "function" else None
@@ -890,6 +900,18 @@ class Interp:
             raise Unsupported(f"symbolic **kwargs into {fv.qualname} without **param")
 
     # ---- oracles -----------------------------------------------------------------------------
+    def call_pure(self, ok, res, exc, tag: str) -> z3.ExprRef:
+        """A pure partial function (e.g. a validator: deterministic, no side effects): inside a
+        summarised comprehension its definedness is logged, otherwise the call forks."""
+        st = self.st
+        log = st.ghost.get("$pure_log")
+        if st.no_fork and log is not None:
+            log.append((ok, exc))
+            return res
+        if st.decide(ok, f"{tag}:accepts"):
+            return res
+        raise PyRaise(exc, f"{tag} rejected the value")
+
     def call_oracle(self, ov: OracleV, fterm, cargs: CallArgs, node=None) -> z3.ExprRef:
         if ov.is_async:
             return self.st.reg_fun(AwaitableV("oracle", {"ov": ov, "cargs": cargs, "fterm": fterm}))
